@@ -320,6 +320,10 @@ def run_check_locked(pid, tier, seed, replay=None, n_override=None):
     # 3+4. harness and correspondence
     stats_all, monitor_hits, mismatches, n_case_files = [], [], [], 0
     only_case = None
+    # development aid: VERIF_ONLY_HARNESS=0,2 runs a subset of the harnesses (no evidence is written)
+    only_h = None
+    if os.environ.get("VERIF_ONLY_HARNESS"):
+        only_h = {int(x) for x in os.environ["VERIF_ONLY_HARNESS"].split(",")}
     if replay:
         rp = json.load(open(replay))
         seed = rp.get("seed", seed)
@@ -327,6 +331,8 @@ def run_check_locked(pid, tier, seed, replay=None, n_override=None):
     for hi, h in enumerate(cfg.get("harness", [])):
         hdir = os.path.join(out_root, "h%d" % hi)
         if replay and rp.get("harness", hi) != hi:
+            continue
+        if only_h is not None and hi not in only_h:
             continue
         rc, out = run_harness(h, tier, seed, hdir, log, n_override, only_case)
         if rc != 0:
@@ -459,7 +465,7 @@ def run_check_locked(pid, tier, seed, replay=None, n_override=None):
         wall_s=round(time.time() - t0, 1), violations=nviol,
     )
     os.makedirs(os.path.join(VERIF, "evidence"), exist_ok=True)
-    if not replay and REPO == "/repo" and not os.environ.get("VERIF_NO_EVIDENCE"):
+    if not replay and REPO == "/repo" and not os.environ.get("VERIF_NO_EVIDENCE") and only_h is None:
         json.dump(ev, open(os.path.join(VERIF, "evidence", pid + ".json"), "w"), indent=1)
     open(os.path.join(out_root, "log.txt"), "w").write("\n".join(log))
     for l in lines:
